@@ -1762,6 +1762,32 @@ func (c *RegionCache) TryLocateKey(key []byte) *KeyLocation {
 	}
 }
 
+// findLastRegion returns the region whose end key is unbounded. It is served from the cache when the cached
+// region with the greatest start key is valid and unbounded, otherwise the regions after it are loaded from PD.
+func (c *RegionCache) findLastRegion(bo *retry.Backoffer) (*Region, error) {
+	startKey := []byte{}
+	c.mu.RLock()
+	item, ok := c.mu.sorted.b.Max()
+	c.mu.RUnlock()
+	if ok {
+		if r := item.cachedRegion; len(r.EndKey()) == 0 && r.isValid() {
+			return r, nil
+		}
+		startKey = item.cachedRegion.StartKey()
+	}
+	for {
+		regions, err := c.BatchLoadRegionsWithKeyRange(bo, startKey, nil, defaultRegionsPerBatch)
+		if err != nil {
+			return nil, err
+		}
+		last := regions[len(regions)-1]
+		if len(last.EndKey()) == 0 {
+			return last, nil
+		}
+		startKey = last.EndKey()
+	}
+}
+
 // LocateEndKey searches for the region and range that the key is located.
 // Unlike LocateKey, start key of a region is exclusive and end key is inclusive.
 func (c *RegionCache) LocateEndKey(bo *retry.Backoffer, key []byte) (*KeyLocation, error) {
@@ -1778,6 +1804,11 @@ func (c *RegionCache) LocateEndKey(bo *retry.Backoffer, key []byte) (*KeyLocatio
 }
 
 func (c *RegionCache) findRegionByKey(bo *retry.Backoffer, key []byte, isEndKey bool) (r *Region, err error) {
+	if isEndKey && len(key) == 0 {
+		// As an end key the empty key is the point at +inf (see Region.ContainsByEnd): only the last region of
+		// the key space contains it. Searching or loading by the key itself would yield the first region.
+		return c.findLastRegion(bo)
+	}
 	var expired bool
 	r, expired = c.searchCachedRegionByKey(key, isEndKey)
 	tag := "ByKey"
